@@ -10,6 +10,11 @@ dyadic value - per entry and, in dro, per event), solves it with the default LP 
   ldr     ro decision-rule queries y.get(), y.get(z), y.get(z[..]), y(...), sub-rules, under every dependency mask
   evt     dro event-wise decisions under every adapt history (all orders, non-contiguous blocks, unordered labels)
   dadapt  dro affinely adaptive event-wise decisions: x.get(), x.get(z), x(z.assign(..)), scenario-wise assign
+  margs   calls with SEVERAL realisation arguments: a decision rule that depends on three random variables z (2), w (3),
+          u () under a dependency pattern (per rule row and variable: none / whole variable / some components), evaluated
+          through 13 expression forms (variable, slices, affine, bi-affine with static / event-wise decisions) at EVERY
+          argument pattern {each of z, w, u: absent (= zero) | common value | common scalar broadcast (thorough) |
+          scenario-wise values (dro)} in EVERY argument order; dro (1-3 scenarios, adapt histories, label kinds) and ro (ldr)
 
 Oracle: NumPy closed forms (c12c13_atoms) at the pinned values, and every reported number is also compared with the raw
 solver vector model.solution.x read through reference index arithmetic (tolerance 1e-9 against the raw vector, 1e-6
@@ -26,7 +31,11 @@ TIMEOUT = 60.0
 CHUNK = 16
 FLOOR = 0.4
 RULE = ('product of {front end} x {variable shapes / expression / atom x inner x chain x multiplier / bi-affine form x assign '
-        'pattern / dependency mask / adapt history x labels} x {query class}; one solved pinned model per case.  A passing '
+        'pattern / dependency mask / adapt history x labels} x {query class}; one solved pinned model per case.  Family margs: '
+        'product of {ro ldr | dro scenarios x labels x adapt history} x {dependency pattern of a 2-entry rule on z(2), w(3), u()} x '
+        '{argument class: no scenario-wise argument | only scenario-wise | mixed}; each case evaluates 13 expression forms at '
+        'every argument list of its class (each of z, w, u absent / common / common scalar / scenario-wise, every argument '
+        'order) against x_s = c_s + Cz_s z + Cw w + cu u read from the raw solver vector.  A passing '
         'case is non-trivial when the solver reported an optimal solution, the raw solver vector holds the pinned values at '
         'the reference positions (measured) and the expected answer is not constant (distinct entries / events), so that a '
         'wrong index, sign, offset or label changes it; distinct = distinct canonical case')
@@ -36,6 +45,9 @@ ASSUMPTIONS = [
     'queries are compared with NumPy evaluated at the raw solver vector with 1e-9*(1+|v|); against closed forms with 1e-6',
     'an exception raised by a query is "unsupported" (C12 is conditional), never a violation',
     'a query on a quantity that is the same in all scenarios may return a plain value or an all-equal Series',
+    'a random variable that is not mentioned in a call is evaluated at zero; scenario-wise values given as an array are '
+    'attached to the scenarios by position (first axis = scenarios in the order of the model); common and scenario-wise '
+    'realisations of different random variables may be mixed in one call, in any argument order (RSOME user guide)',
     'reference layout of the dro solver vector: epigraph, internal objective decision, then per decision one block of '
     'size entries per event in the order (remainder, declared blocks in call order) (tests/test_dro_dvar.py)',
 ]
@@ -67,6 +79,19 @@ LDR_SPECS_Q = [('z3', 2), ('z2w', 2), ('z2', 1), ('z2', 2)]
 EVT_Q = ('objective', 'get', 'call', 'slice.call', 'aff.call', 'cvx.call', 'mix.call', 'mixcvx.call', 'biaff.call', 'sub.get',
          'stack.call')
 DAD_Q = ('get', 'coef', 'coef.slice', 'call', 'call.partial', 'call.sw', 'aff.call', 'biaff.call')
+# ---- margs: calls with several realisation arguments
+MARG_EXPRS = ('x', 'x[1]', 'x[::-1]', 'M22@x+1', '3*x[0]-2*x[1]+1.5', 'x.sum()', 'x+pre',
+              'q0*z+x', '(pre*z).sum()+x[0]', 'pre*z', 'u*pre+x', 'pre[0]*w[:2]+x', 'x[0]+pre@z')
+MARG_BIAFF = MARG_EXPRS[7:]          # bi-affine forms: evaluated for the declaration order of the arguments and its reverse
+# dependency pattern: rows = entries of the rule, columns = (z, w, u); 0 none, 1 whole variable, 2 some components (z[1], w[1:])
+MARG_DEPS_Q = [[[a, b, c], [a, b, c]] for a in (0, 1) for b in (0, 1) for c in (0, 1)] + \
+    [[[1, 0, 0], [0, 1, 0]], [[1, 1, 0], [0, 1, 1]], [[0, 0, 1], [1, 0, 0]], [[1, 1, 1], [0, 0, 0]],
+     [[2, 1, 0], [1, 2, 1]], [[1, 2, 1], [2, 0, 0]]]
+MARG_CONF_Q = [(1, 'int', []), (2, 'str', []), (2, 'str', [[1]]), (2, 'int', [[1], [0]]), (3, 'str', []), (3, 'str', [[1]]),
+               (3, 'int', [[2], [0]]), (3, 'perm', [[0, 2]]), (3, 'str', [[1], [2], [0]])]
+MARG_CONF_FULL = [(2, 'int', [[1], [0]]), (3, 'str', [[1]])]       # configurations that run every dependency pattern in quick
+MARG_DEPS_CORE = [[[1, 1, 1], [1, 1, 1]], [[1, 1, 0], [0, 1, 1]], [[2, 1, 0], [1, 2, 1]], [[0, 1, 0], [0, 1, 0]]]
+MARG_GROUPS = ('common', 'sw', 'mixed')
 ALIAS_FES = ('ro', 'lp', 'gcp', 'dro1', 'dro3', 'roldr')
 ALIAS_Q = ('x.get()', 'y.get()', 's.get()', 'x()', 'y()', '(2*x-c)()', 'x[0]()', 'abs(y)()', 'coef', 'model.get()')
 DAD_MASKS_Q = [[[1, 1], [1, 1]], [[1, 0], [0, 1]], [[0, 1], [1, 0]], [[1, 1], [0, 0]], [[0, 0], [0, 1]], [[1, 0], [1, 1]]]
@@ -168,6 +193,17 @@ def _gen_all(tier, seed):
                 for q in LDR_Q:
                     for pl in pals:
                         yield {'fam': 'ldr', 'rl': rl, 'rows': nrows, 'mask': mask, 'pin': pin, 'q': q, 'pal': pl}
+    # ---- margs (generated before the cheap evt / dadapt families: its cases are the longest ones)
+    deps_all = _marg_deps_all()
+    for dep in (deps_all if th else MARG_DEPS_Q):
+        for pl in pals:
+            yield {'fam': 'margs', 'fe': 'ro', 'n': 1, 'lab': 'int', 'hist': [], 'dep': dep, 'grp': 'common', 'pal': pl,
+                   'kinds': '-cb'}
+    for n, lab, hist, deps, kinds in _marg_confs(th):
+        for dep in deps:
+            for grp in MARG_GROUPS:
+                yield {'fam': 'margs', 'fe': 'dro', 'n': n, 'lab': lab, 'hist': hist, 'dep': dep, 'grp': grp, 'pal': pal,
+                       'kinds': kinds}
     # ---- evt
     for n in _ns(tier):
         for hist in P.adapt_histories(n):
@@ -196,6 +232,22 @@ def _gen_all(tier, seed):
                         yield {'fam': 'dadapt', 'n': n, 'lab': lab, 'hist': hist, 'mask': mask, 'q': q, 'pal': pal}
 
 
+def _marg_deps_all():
+    out = [[list(r0), list(r1)] for r0 in itertools.product((0, 1), repeat=3) for r1 in itertools.product((0, 1), repeat=3)]
+    return out + [d for d in MARG_DEPS_Q if d not in out]
+
+
+def _marg_confs(th):
+    """(scenarios, label kind, adapt history, dependency patterns, argument kinds) of the dro part of the margs family."""
+    confs = [(n, lab, h, MARG_DEPS_Q if (n, lab, h) in MARG_CONF_FULL else MARG_DEPS_CORE, '-cs') for n, lab, h in MARG_CONF_Q]
+    if th:
+        confs = [(n, lab, h, _marg_deps_all(), '-cs') for n, lab, h in MARG_CONF_Q] + \
+                [(n, lab, h, MARG_DEPS_Q, '-cbs') for n, lab, h in MARG_CONF_Q] + \
+                [(n, lab, h, MARG_DEPS_CORE, '-cs') for n in (1, 2, 3) for h in P.adapt_histories(n) for lab in ('int', 'str')
+                 if (n, lab, h) not in MARG_CONF_Q]
+    return confs
+
+
 def exhaustive(tier):
     return _fam_filter() is None
 
@@ -206,6 +258,12 @@ def bounds(tier):
             'labels': list(P.LABEL_KINDS), 'variable_layouts': {k: [list(s) for s in v] for k, v in LAYOUTS.items()},
             'affine_expressions': len(AFF_EXPRS), 'atoms': len(At.ATOMS), 'chains': len(At.CHAINS), 'multipliers': list(At.KS),
             'biaffine_expressions': len(BI_EXPRS), 'assign_patterns': list(BI_ASSIGN),
+            'margs': {'random_variables': {'z': 2, 'w': 3, 'u': 0}, 'expressions': list(MARG_EXPRS),
+                      'argument_kinds': {'ro': '-cb', 'dro': '-cbs' if th else '-cs'},
+                      'argument_orders': 'all permutations (bi-affine forms: declaration order and its reverse)',
+                      'dependency_patterns': len(_marg_deps_all()) if th else len(MARG_DEPS_Q),
+                      'dro_models': sum(len(c[3]) for c in _marg_confs(th)),
+                      'dro_configurations': len({(c[0], c[1], str(c[2])) for c in _marg_confs(th)})},
             'ldr_mask_cells_max': 6, 'dadapt_masks': 16 if th else len(DAD_MASKS_Q), 'palettes': 4 if th else 1}
 
 
@@ -1333,4 +1391,282 @@ def _run_dadapt(case):
             cls = 'single event'
         parts = res['sig'].split('|')
         res['sig'] = '|'.join(parts[:2] + [cls] + parts[2:])
+    return res
+
+
+# ---------------------------------------------------------------- margs (calls with several realisation arguments)
+MARG_COMMON = {'z': np.array([1.5, -0.5]), 'w': np.array([0.75, -2.0, 1.25]), 'u': 2.25}
+MARG_BCAST = {'z': 0.75, 'w': -1.25, 'u': 0.5}
+MARG_SW = {'z': ZSW, 'w': np.array([[0.5, 1.0, -1.5], [2.0, -0.25, 0.75], [-1.0, 1.5, 0.25], [1.25, -0.75, 2.5]]), 'u': WSW}
+MARG_SHAPE = {'z': (2,), 'w': (3,), 'u': ()}
+MARG_COLS = {'z': [0, 1], 'w': [2, 3, 4], 'u': [5]}
+MARG_PART = {'z': [1], 'w': [3, 4], 'u': [5]}          # the components selected by dependency code 2 (z[1], w[1:], u)
+MARG_C = np.array([[1.0, 2.0, 0.5, -0.25, 2.5, -3.0], [3.0, 4.0, -1.5, 0.75, 1.25, 6.0]])
+MARG_D = np.array([[0.5, 0.25], [0.125, 0.0625]])
+
+
+def _marg_expr(name, x, pre, q0, z, w, u):
+    if name == 'x':
+        return x
+    if name == 'x[1]':
+        return x[1]
+    if name == 'x[::-1]':
+        return x[::-1]
+    if name == 'M22@x+1':
+        return M22 @ x + 1
+    if name == '3*x[0]-2*x[1]+1.5':
+        return 3 * x[0] - 2 * x[1] + 1.5
+    if name == 'x.sum()':
+        return x.sum()
+    if name == 'x+pre':
+        return x + pre
+    if name == 'q0*z+x':
+        return q0 * z + x
+    if name == '(pre*z).sum()+x[0]':
+        return (pre * z).sum() + x[0]
+    if name == 'pre*z':
+        return pre * z
+    if name == 'u*pre+x':
+        return u * pre + x
+    if name == 'pre[0]*w[:2]+x':
+        return pre[0] * w[:2] + x
+    if name == 'x[0]+pre@z':
+        return x[0] + pre @ z
+    raise KeyError(name)
+
+
+def marg_patterns(kinds, group, all_orders=True):
+    """All argument lists [(rvar name, kind), ...] of one group: every assignment of a kind in `kinds` ('-' absent,
+    'c' common array, 'b' common scalar broadcast, 's' scenario-wise) to (z, w, u) whose class is `group`
+    ('common': no scenario-wise argument, the empty call included; 'sw': only scenario-wise ones; 'mixed': both),
+    in every argument order (all_orders) or in the declaration order and its reverse."""
+    out = []
+    for ks in itertools.product(kinds, repeat=3):
+        present = [(nm, k) for nm, k in zip('zwu', ks) if k != '-']
+        has_s = any(k == 's' for _, k in present)
+        has_c = any(k in 'cb' for _, k in present)
+        g = 'mixed' if (has_s and has_c) else ('sw' if has_s else 'common')
+        if g != group:
+            continue
+        if all_orders:
+            orders = list(itertools.permutations(present))
+        else:
+            orders = [tuple(present)] + ([tuple(present[::-1])] if len(present) > 1 else [])
+        for o in orders:
+            out.append(list(o))
+    return out
+
+
+def marg_values(pattern, n):
+    """Reference realisations: per scenario position the values of (z, w, u) that an argument list denotes
+    (zero where a random variable is not mentioned)."""
+    vals = [{'z': np.zeros(2), 'w': np.zeros(3), 'u': 0.0} for _ in range(n)]
+    for nm, k in pattern:
+        for s in range(n):
+            if k == 'c':
+                v = MARG_COMMON[nm]
+            elif k == 'b':
+                v = MARG_BCAST[nm] + np.zeros(MARG_SHAPE[nm])
+            else:
+                v = MARG_SW[nm][s]
+            vals[s][nm] = np.array(v, dtype=float) if nm != 'u' else float(v)
+    return vals
+
+
+def _marg_args(pattern, rv, n):
+    args = []
+    for nm, k in pattern:
+        if k == 'c':
+            args.append(rv[nm].assign(MARG_COMMON[nm] if nm != 'u' else float(MARG_COMMON[nm])))
+        elif k == 'b':
+            args.append(rv[nm].assign(MARG_BCAST[nm]))
+        else:
+            args.append(rv[nm].assign(np.array(MARG_SW[nm][:n], dtype=float), sw=True))
+    return args
+
+
+def _marg_mask(dep):
+    mask = np.zeros((2, 6), dtype=int)
+    for i in range(2):
+        for j, nm in enumerate('zwu'):
+            if dep[i][j] == 1:
+                mask[i, MARG_COLS[nm]] = 1
+            elif dep[i][j] == 2:
+                mask[i, MARG_PART[nm]] = 1
+    return mask
+
+
+def _marg_declare(x, dep, rv, ops):
+    """One adapt call per (random variable, dependency code) in the order z, w, u."""
+    part = {'z': lambda r: r[1], 'w': lambda r: r[1:], 'u': lambda r: r}
+    for j, nm in enumerate('zwu'):
+        for code in (1, 2):
+            rows = [i for i in range(2) if dep[i][j] == code]
+            if not rows:
+                continue
+            target = rv[nm] if code == 1 else part[nm](rv[nm])
+            (x if len(rows) == 2 else x[rows[0]]).adapt(target)
+            ops()
+
+
+def _run_margs(case):
+    Bd = _rs['B']
+    fe, n, lab, hist, dep, grp, kinds = (case[k] for k in ('fe', 'n', 'lab', 'hist', 'dep', 'grp', 'kinds'))
+    is_ro = fe == 'ro'
+    labels = P.labels_for(lab, n)
+    ops = Bd.Ops()
+    pal = case['pal']
+    mask = _marg_mask(dep)
+    ncell = int(mask.sum())
+    a = np.array([0.5, -1.5]) + pal
+    C = MARG_C * (1.0 if pal % 2 == 0 else -1.0) * mask
+    if pal % 4 >= 2:
+        C = (MARG_C[::-1] * 0.5) * mask
+    D = MARG_D * mask[:, :2]
+    c = np.array([1.0, 2.0])
+    part = P.declared_partition(hist, n)
+    blocks = sorted(part, key=min)
+    tau, sig = {}, {}
+    for bi, b in enumerate(blocks):
+        for s in b:
+            tau[s] = 2.0 + bi
+            sig[s] = 1.0 + 2.0 * bi
+    sigp = {s: (2.0 if s == 0 else 1.0) for s in range(n)}
+    try:
+        if is_ro:
+            m = _rs['ro'].Model()
+            pre = m.dvar(2)
+            x = m.ldr(2)
+            q0 = m.dvar()
+            rv = {'z': m.rvar(2), 'w': m.rvar(3), 'u': m.rvar()}
+            ops(7)
+            _marg_declare(x, dep, rv, ops)
+            z, w, u = rv['z'], rv['w'], rv['u']
+            m.maxmin(q0, z >= -1, z <= 1, w >= -1, w <= 1, u >= -1, u <= 1)
+            m.st(q0 <= 3, pre == np.array([1.0, 2.0]) * sigp[0])
+            m.st(x == a + c * sig[0] + C[:, :2] @ z + C[:, 2:5] @ w + C[:, 5] * u)
+            ops(4)
+        else:
+            m = Bd.dro_model(lab, n, labels)
+            pre = m.dvar(2)
+            x = m.dvar(2)
+            q0 = m.dvar()
+            z = m.rvar(2)
+            ind = m.rvar()
+            w = m.rvar(3)
+            u = m.rvar()
+            h = m.rvar(2)
+            indp = m.rvar()
+            rv = {'z': z, 'w': w, 'u': u}
+            fset = m.ambiguity()
+            ops(11)
+            if n >= 2:
+                pre.adapt(labels[0])
+                ops()
+            for blk in hist:
+                x.adapt([labels[i] for i in blk])
+                ops()
+            _marg_declare(x, dep, rv, ops)
+            for s in range(n):
+                fset.iloc[s].suppset(z >= -1, z <= 1, w >= -1, w <= 1, u >= -1, u <= 1, h == tau[s] * z, ind == sig[s],
+                                     indp == sigp[s])
+                ops()
+            m.max(q0)
+            m.st(q0 <= 3, (pre == np.array([1.0, 2.0]) * indp).forall(fset))
+            m.st((x == a + C[:, :2] @ z + C[:, 2:5] @ w + C[:, 5] * u + D @ h + c * ind).forall(fset))
+            ops(4)
+        m.solve(display=False)
+        ops()
+    except Exception as exn:  # noqa
+        return {'status': 'vacuous', 'outcome': 'margs:model raises %s' % Bd.errname(exn), 'ops': ops.n, 'detail': str(exn)[:200]}
+    if not Bd.is_optimal(m):
+        return {'status': 'vacuous', 'outcome': 'margs:not optimal', 'ops': ops.n}
+    consts = [a + c * sig[s] for s in range(n)]
+    coefs = [C + np.hstack([tau[s] * D, np.zeros((2, 4))]) if not is_ro else C.copy() for s in range(n)]
+    pvs = [np.array([1.0, 2.0]) * sigp[s] for s in range(n)]
+    # reference index arithmetic for the raw vector: epigraph (+ internal objective decision in dro), the constants of
+    # pre, x (one block per event, remainder first, then the declared blocks in call order), q0, then per event one
+    # coefficient per declared cell in row-major order of (rule row, random component)
+    sol = np.asarray(m.solution.x, dtype=float)
+    order_x = P.reference_event_order(hist, n) if not is_ro else [[0]]
+    order_p = P.reference_event_order([[0]] if n >= 2 else [], n) if not is_ro else [[0]]
+    off_p = 1 if is_ro else 2
+    off_x = off_p + 2 * len(order_p)
+    iq0 = off_x + 2 * len(order_x)
+    lin0 = iq0 + 1
+    rq0 = float(sol[iq0]) if sol.size > iq0 else np.nan
+    bad = None
+    if sol.size < lin0 + ncell * len(order_x) or abs(rq0 - 3.0) > 1e-6:
+        bad = 'vector of length %d, q0 read as %s' % (sol.size, rq0)
+    else:
+        for s in range(n):
+            e = [i for i, b in enumerate(order_x) if s in b][0]
+            ep = [i for i, b in enumerate(order_p) if s in b][0]
+            rc = sol[off_x + 2 * e: off_x + 2 * e + 2]
+            rl = sol[lin0 + ncell * e: lin0 + ncell * (e + 1)]
+            rp = sol[off_p + 2 * ep: off_p + 2 * ep + 2]
+            if not np.allclose(rc, consts[s], rtol=0, atol=1e-5) or not np.allclose(rl, coefs[s][mask == 1], rtol=0, atol=1e-5) \
+                    or not np.allclose(rp, pvs[s], rtol=0, atol=1e-5):
+                bad = 'history %s dependency %s scenario %d: constants %s (expected %s) coefficients %s (expected %s) pre %s ' \
+                      '(expected %s)' % (P.fmt_hist(hist), dep, s, rc.tolist(), consts[s].tolist(), rl.tolist(),
+                                         coefs[s][mask == 1].tolist(), rp.tolist(), pvs[s].tolist())
+                break
+            consts[s] = rc.copy()
+            cf = np.zeros((2, 6))
+            cf[mask == 1] = rl
+            coefs[s] = cf
+            pvs[s] = rp.copy()
+    if bad:
+        return _viol('margs|%s|raw solver vector does not hold the pinned optimum at the reference positions' % fe, bad, ops.n)
+    # ---- the expressions (built after the solve)
+    exprs = {}
+    built_err = {}
+    for nm in MARG_EXPRS:
+        try:
+            exprs[nm] = _marg_expr(nm, x, pre, q0, rv['z'], rv['w'], rv['u'])
+            ops()
+        except Exception as exn:  # noqa
+            built_err[nm] = Bd.errname(exn)
+    T = Tally('margs|%s|%s' % (fe, grp), ops)
+    L = labels if not is_ro else None
+    pats_all = marg_patterns(kinds, grp, True)
+    pats_two = marg_patterns(kinds, grp, False)
+    where = None
+    for pat in pats_all:
+        try:
+            args = _marg_args(pat, rv, n)
+            ops(len(pat))
+        except Exception as exn:  # noqa
+            key = 'assign:' + Bd.errname(exn)
+            T.raised[key] = T.raised.get(key, 0) + 1
+            continue
+        vals = marg_values(pat, n)
+        xs = [consts[s] + coefs[s][:, :2] @ vals[s]['z'] + coefs[s][:, 2:5] @ vals[s]['w'] + coefs[s][:, 5] * vals[s]['u']
+              for s in range(n)]
+        ptxt = ', '.join('%s:%s' % (nm, {'c': 'common', 'b': 'common scalar', 's': 'scenario-wise'}[k]) for nm, k in pat) or 'no argument'
+        for nm, e in exprs.items():
+            if nm in MARG_BIAFF and pat not in pats_two:
+                continue
+            exps = [np.asarray(_marg_expr(nm, xs[s], pvs[s], rq0, vals[s]['z'], vals[s]['w'], vals[s]['u']), dtype=float)
+                    for s in range(n)]
+            if is_ro:
+                T.item('(%s)(%s)' % (nm, ptxt), lambda: e(*args), exps[0])
+            else:
+                T.item('(%s)(%s)' % (nm, ptxt), lambda: e(*args), exps, labels=L)
+            if T.viol is not None and where is None:
+                where = nm
+        if T.viol is not None:
+            break
+    for nm, er in built_err.items():
+        T.raised['build:' + er] = T.raised.get('build:' + er, 0) + 1
+    res = T.result('margs[%s,%s]' % (fe, grp))
+    if res['status'] == 'violation':
+        parts = res['sig'].split('|')
+        cls = 'ldr'
+        if not is_ro:
+            firsts = [min(b) for b in order_x]
+            inorder = firsts == sorted(firsts) and all(sorted(b) == list(range(min(b), max(b) + 1)) for b in order_x)
+            cls = 'single event' if len(order_x) == 1 else ('events listed in scenario order' if inorder else
+                                                            'events not listed in scenario order')
+        res['sig'] = '|'.join(parts[:3] + [where, cls] + parts[3:])
     return res
